@@ -821,6 +821,8 @@ class HistogramBase(abc.ABC):
         }
         if "missed" in a_dict:
             kwargs["missed"] = a_dict["missed"]
+        if "missed_keep" in a_dict:
+            kwargs["keep_missed"] = a_dict["missed_keep"]
         kwargs.update(a_dict.get("meta_data", {}))
         if len(kwargs["binnings"]) > 2:
             kwargs["dimension"] = len(kwargs["binnings"])
